@@ -41,65 +41,36 @@ Theorem C16_window_is_last_cap_records :
     a_next a - a_first a = Z.min (a_cap a) (Z.of_nat (length (a_log a))).
 Proof. exact (@a_window_size). Qed.
 
-(* The next index survives a restart without going back by more than the flush interval of 100 records.
-   Full statement: for every fault-free history. *)
-Definition C16_restart_index_lag_full : Prop :=
+(* The next index survives a restart without going back by more than the flush interval of 100 records: for every
+   fault-free history, ResetWithIndex included (it persists the index it sets since db81664; before that fix the
+   statement was refuted by [OReset 1000000] — kept below as an Example that now behaves). *)
+Theorem C16_restart_index_lag :
   forall (A : Type) cap (ops : list (bop A)) cap',
     faultfree ops = true ->
     let s := run_state brun_op (binit cap) ops in
     next_index (buf (restart s cap' true)) >= next_index (buf s) - 100.
+Proof. exact (@restart_index_lag_100). Qed.
 
-(* refuted on the unchanged code: ResetWithIndex does not persist (S8) *)
-Theorem C16_restart_index_lag_refuted : ~ C16_restart_index_lag_full.
-Proof.
-  intros H. specialize (H unit 10 [OReset 1000000] 10 eq_refl). vm_compute in H. apply H. reflexivity.
-Qed.
-
-(* the excluded class spelled out: no ResetWithIndex in the history *)
-Theorem C16_restart_index_lag_partial :
-  forall (A : Type) cap (ops : list (bop A)) cap',
-    faultfree ops = true -> noreset ops = true ->
-    let s := run_state brun_op (binit cap) ops in
-    next_index (buf (restart s cap' true)) >= next_index (buf s) - 100.
-Proof.
-  intros A cap ops cap' Hf Hn s. pose proof (restart_index_lag_pf cap ops cap' Hf Hn) as H.
-  fold s in H. rewrite flush_count_is_100 in H. apply Z.le_ge. apply Z.lt_le_incl. apply Z.gt_lt. exact H.
-Qed.
+Example C16_reset_then_restart_keeps_index :
+  run brun_op (binit 10) [ORecord 1 true; OReset 1000000 true; ORecord 2 true; ONext; ORestart 10 true]
+  = [BUnit; BUnit; BUnit; BIdx 1000001; BIdx 1000000].
+Proof. vm_compute. reflexivity. Qed.
 
 (* ------------------------------------------------------------------------------------------ *)
 (* 2. the sync stream                                                                         *)
 (* ------------------------------------------------------------------------------------------ *)
-(* Full synchronisation, full statement: a follower with an empty cache that applies the messages the
-   leader sends for its region set holds, for every region sent, the leader's range, peers, leader and
-   flow statistics — however many regions and batches. *)
-Definition C16_follower_equals_leader_for_sent_full : Prop :=
+(* Full synchronisation: a follower with an empty cache that applies the messages the leader sends for its region
+   set holds, for every region sent, the leader's range, peers, leader and flow statistics — however many regions
+   and batches.  (Refuted before 7335a72 for 101 regions: `leaders` was not truncated; the former witness is the
+   Example C16_sync_nonvacuous below.) *)
+Theorem C16_follower_equals_leader_for_sent :
   forall cap kv regions,
     region_set regions -> leaders_valid regions ->
     let f := fold_left apply_msg (full_sync_impl regions) (finit cap kv) in
     forall r, In r regions -> find_id (f_cache f) (m_id (meta r)) = Some r.
+Proof. exact follower_equals_leader_for_sent_pf. Qed.
 
-(* refuted on the unchanged code for 101 regions (S7): region 101 arrives with the leader of region 1 *)
-Theorem C16_follower_equals_leader_for_sent_refuted : ~ C16_follower_equals_leader_for_sent_full.
-Proof.
-  intros H.
-  specialize (H 10000 None witness_regions witness_region_set witness_leaders_valid (mk_region 101)).
-  assert (Hin : In (mk_region 101) witness_regions) by (vm_compute; tauto).
-  specialize (H Hin). pose proof witness_misaligned as W. cbv zeta in W, H.
-  change (m_id (meta (mk_region 101))) with 101 in H.
-  rewrite H in W. vm_compute in W. discriminate W.
-Qed.
-
-(* the excluded class: more regions than one batch *)
-Theorem C16_follower_equals_leader_for_sent_partial :
-  forall cap kv regions,
-    region_set regions -> leaders_valid regions ->
-    Z.of_nat (length regions) <= 100 ->
-    let f := fold_left apply_msg (full_sync_impl regions) (finit cap kv) in
-    forall r, In r regions -> find_id (f_cache f) (m_id (meta r)) = Some r.
-Proof. exact follower_equals_leader_one_batch_pf. Qed.
-
-(* the repair, proved for the parametric loop: with all three accumulators reset after a send the full
-   statement holds for every batch size and every number of regions *)
+(* the same for the loop with any batch size and any truncation list that contains all three accumulators *)
 Theorem C16_follower_equals_leader_if_all_truncated :
   forall trunc batch cap kv regions,
     all_truncated trunc -> region_set regions -> leaders_valid regions ->
@@ -107,8 +78,8 @@ Theorem C16_follower_equals_leader_if_all_truncated :
     forall r, In r regions -> find_id (f_cache f) (m_id (meta r)) = Some r.
 Proof. exact follower_equals_leader_if_all_truncated_pf. Qed.
 
-(* the code as it is resets only these (regenerated from syncHistoryRegion on every run) *)
-Theorem C16_code_truncates : Gen_C16.full_sync_truncated = ["metas"; "stats"]%string.
+(* the code as it is resets all of them (regenerated from syncHistoryRegion on every run) *)
+Theorem C16_code_truncates : Gen_C16.full_sync_truncated = ["metas"; "stats"; "leaders"]%string.
 Proof. exact full_sync_truncated_ok. Qed.
 
 (* Incremental synchronisation: the follower applies exactly the leader's change sequence, so a follower
@@ -154,36 +125,39 @@ Proof. exact broadcast_replays_pf. Qed.
 (* full synchronisation into a follower that already holds older versions of the leader's regions (same id, same
    range, epochs not larger — what LoadRegionsOnce puts there from its own storage): the same conclusion *)
 Theorem C16_full_sync_over_stale_cache :
-  forall trunc batch cap kv regions old,
-    all_truncated trunc -> region_set regions -> leaders_valid regions ->
-    older_versions old regions -> region_set old ->
+  forall cap kv regions old,
+    region_set regions -> leaders_valid regions -> older_versions old regions -> region_set old ->
     let f0 := finit cap kv in
-    let f := fold_left apply_msg (full_sync trunc batch regions) (FS old (f_saved f0) (f_hist f0)) in
+    let f := fold_left apply_msg (full_sync_impl regions) (FS old (f_saved f0) (f_hist f0)) in
     forall r, In r regions -> find_id (f_cache f) (m_id (meta r)) = Some r.
-Proof. exact full_sync_over_stale_cache_pf. Qed.
+Proof. exact full_sync_impl_over_stale_cache_pf. Qed.
 
 (* non-vacuity: a capacity-3 buffer that wraps twice, is read at both window edges, reset and restarted *)
 Example C16_buffer_nonvacuous :
   run brun_op (binit 3)
       [ORecord 10 true; ORecord 11 true; ORecord 12 true; ORecord 13 true; ORecord 14 true;
-       OFirst; ONext; OFrom 1; OFrom 2; OFrom 4; OFrom 5; OReset 7; ORecord 15 true; OFrom 7; ORestart 3 true]
+       OFirst; ONext; OFrom 1; OFrom 2; OFrom 4; OFrom 5; OReset 7 true; ORecord 15 true; OFrom 7; ORestart 3 true]
   = [BUnit; BUnit; BUnit; BUnit; BUnit; BIdx 2; BIdx 5; BRecs []; BRecs [Some 12; Some 13; Some 14];
-     BRecs [Some 14]; BRecs []; BUnit; BUnit; BRecs [Some 15]; BIdx 0].
+     BRecs [Some 14]; BRecs []; BUnit; BUnit; BRecs [Some 15]; BIdx 7].
 Proof. vm_compute. reflexivity. Qed.
 
 (* non-vacuity: the hypotheses of the sync theorems are satisfiable by a set of more than one batch *)
 Example C16_sync_nonvacuous :
   region_set witness_regions /\ leaders_valid witness_regions /\ length witness_regions = 101%nat /\
-  length (full_sync_impl witness_regions) = 2%nat.
-Proof. split; [exact witness_region_set|]. split; [exact witness_leaders_valid|]. vm_compute. tauto. Qed.
+  length (full_sync_impl witness_regions) = 2%nat /\
+  (* the former S7 witness: region 101 of the second batch arrives with its own leader *)
+  (let f := fold_left apply_msg (full_sync_impl witness_regions) (finit 10000 None) in
+   option_map leader (find_id (f_cache f) 101) = Some (Some (Peer 1101 1 false))).
+Proof.
+  split; [exact witness_region_set|]. split; [exact witness_leaders_valid|]. split; [reflexivity|].
+  split; [vm_compute; reflexivity|exact witness_aligned].
+Qed.
 
 Print Assumptions C16_ring_refines_log.
 Print Assumptions C16_records_from_exact.
 Print Assumptions C16_window_is_last_cap_records.
-Print Assumptions C16_restart_index_lag_refuted.
-Print Assumptions C16_restart_index_lag_partial.
-Print Assumptions C16_follower_equals_leader_for_sent_refuted.
-Print Assumptions C16_follower_equals_leader_for_sent_partial.
+Print Assumptions C16_restart_index_lag.
+Print Assumptions C16_follower_equals_leader_for_sent.
 Print Assumptions C16_follower_equals_leader_if_all_truncated.
 Print Assumptions C16_code_truncates.
 Print Assumptions C16_incremental_sync_converges.
